@@ -255,7 +255,18 @@ META["C13"] = dict(
          "deleted, of every primary file and of the pools, is current or recorded) and C13_gc_exactly_once (with the ghost list of "
          "consumed blocks: recorded has no duplicates, consumed has no duplicates, the two are disjoint, and neither names a current "
          "record - every superseded location is recorded exactly once, presented to the collector exactly once, and never recorded, "
-         "consumed or current again). The concurrent hand-over (Put || Flush || ToGC) is covered by the sched runs, not by theorems.",
+         "consumed or current again). The concurrent hand-over (Put || Flush || ToGC) is covered by the sched runs, not by theorems."
+         " THE CONCURRENT HAND-OVER (Sth/Model/FreeConc.lean, Sth/Props/C13F.lean): freelist Put || Flush (two lock sections) || ToGC (inner "
+         "Flush, close, rename, reopen under flushLock) || the collector's apply/remove, as a small-step machine with any number of "
+         "writer and flusher threads and one collector; for EVERY schedule: C13_concurrent_handover_exactly_once / _global_fifo (consumed ++ "
+         ".gc ++ file ++ in-flight ++ pool equals the log of returned Puts, in order), _nothing_lost_at_quiescence, _order (per-writer FIFO), "
+         "_file_exists_when_unlocked, _flush_finds_file, _lock_exclusive; negative witnesses _without_flushlock_loses and "
+         "_two_collectors_loses (why the lock and the single collector are needed). Tied to the code by REPLAY: every real schedule of the "
+         "sched engine (all profiles; without blocked threads, relocation or the unscheduled flusher) is turned into the model's events - a "
+         "freelist Put after the release from store.put.index_done / store.remove.index_done, the hook points of Flush and ToGC, "
+         "primary.gc.fl.applied / .removed - starting from the pool:file:.gc counts the harness reports; every event must be ENABLED in the "
+         "model (lock free, pool empty or not, file present) and the three counts after the schedule must agree "
+         "(C13_handover_replay_exactly_once speaks about exactly this run).",
     note=SEQ_NOTE,
 )
 
